@@ -542,7 +542,11 @@ int main(int argc, char** argv)
     unsigned long long seed = argc > 2 ? std::strtoull(argv[2], nullptr, 10) : 1;
     Rng                g(seed);
     Handlers::install();
-    std::printf("header subject=container seed=%llu %s\n", seed, cfg_string().c_str());
+    {
+        using PT = propagation_traits<LedgerAlloc>;
+        std::printf("header subject=container seed=%llu pocca=%d pocma=%d pocs=%d %s\n", seed, (int)PT::propagate_on_container_copy_assignment::value,
+                    (int)PT::propagate_on_container_move_assignment::value, (int)PT::propagate_on_container_swap::value, cfg_string().c_str());
+    }
 #ifdef VERIF_ALL_TYPES
     ns_sizes(std::make_index_sequence<VERIF_ALL_TYPES>{});
 #else
